@@ -4,7 +4,7 @@
 From V.lib Require Import Base.
 From V.c07 Require Import C07Model.
 From V.c06 Require Import C06Model C06InitModel C06StructProofs C06CencProofs C06CbcsProofs C06SampleProofs C06InitProofs C06FragModel C06FragProofs.
-From V.c06 Require Import C06SencModel C06SencProofs C06SencAuxProofs C06TrexModel C06TrexProofs.
+From V.c06 Require Import C06SencModel C06SencProofs C06SencAuxProofs C06TrexModel C06TrexProofs C06EntryModel C06EntryProofs.
 
 (* cenc: crypting twice with the same key, IV and sub-sample map restores the sample — for EVERY block function
    E, every map (empty = whole sample, partial last block, clear runs > 65535, even overlapping or wrapping
@@ -282,6 +282,21 @@ Theorem C06_file_roundtrip_cenc :
 Proof. exact file_roundtrip_cenc. Qed.
 Print Assumptions C06_file_roundtrip_cenc.
 
+(* ---------------------------------------------------------------- several sample entries, several tracks *)
+(* a moov in which EVERY sample entry of EVERY track has been protected the way InitProtect protects its single
+   entry (type -> encv / enca, sinf(frma = original type, schm, schi(tenc)) appended after the entry's own
+   children, whatever those are: avcC/hvcC/esds, btrt, pasp, unknown boxes), with pssh boxes appended to the moov:
+   DecryptInit restores every entry (original 4cc from frma, sinf gone, every other child in place and in order),
+   every track, every other moov child, removes the pssh boxes and returns one (scheme, tenc) per entry.
+   Guard: no entry has a sinf of its own (ex_init_own_sinf: RemoveEncryption removes the FIRST sinf child but reads
+   frma from the LAST one) *)
+Theorem C06_init_restore_all : forall m iv sch kid ps_ok psshs m' ts,
+  entries_no_sinf m = true -> no_pssh m = true ->
+  protect_traks m iv sch kid ps_ok = Ok (m', ts) ->
+  decrypt_init (m' ++ map MVPssh psshs) = Ok (m, infos_of sch ts).
+Proof. exact init_restore_all. Qed.
+Print Assumptions C06_init_restore_all.
+
 (* ---------------------------------------------------------------- examples *)
 (* the defect of the pinned tree (fixed by the `fix:` commit): traf{tfhd, tfxd-uuid} lost its uuid box and no
    byte was counted *)
@@ -380,3 +395,15 @@ Example ex_file_roundtrip :
   | _ => False
   end.
 Proof. split; [repeat constructor|]. vm_compute. split; reflexivity. Qed.
+
+(* two tracks, the first with two sample entries (avc1 with two children, avc3), the second an audio track with an
+   unknown child: all protected, two pssh boxes, everything back *)
+Example ex_init_restore_all :
+  let m := [MVOther 1; MVTrak [mkSE SVisual cc_avc1 [SEOther 2; SEOther 3]; mkSE SVisual cc_avc3 [SEOther 4]];
+            MVTrak [mkSE SAudio 1836069985 [SEOther 5; SEOther 6]]; MVOther 7] in
+  entries_no_sinf m = true /\ no_pssh m = true /\
+  match protect_traks m (repeat 7 16) cc_cbcs 1 true with
+  | Ok (m', ts) => decrypt_init (m' ++ map MVPssh [1000; 1001]) = Ok (m, infos_of cc_cbcs ts) /\ length (infos_of cc_cbcs ts) = 3%nat
+  | _ => False
+  end.
+Proof. vm_compute. repeat split; reflexivity. Qed.
